@@ -65,6 +65,12 @@ def build_harness(hwcrc=False):
     return exe
 
 
+def tmpdir(wd):
+    """a scratch directory under the check's work directory for tools that would otherwise litter /tmp"""
+    d = os.path.join(wd, "tmp"); os.makedirs(d, exist_ok=True)
+    return d
+
+
 def harness(exe, args, timeout=1800, env=None):
     rc, out = sh([exe] + [str(a) for a in args], timeout=timeout, env=env)
     if rc != 0:
@@ -187,7 +193,8 @@ def tlc_mc(module, cfg, outpath, workers=None, timeout=3600, env=None, coverage=
     cmd += list(extra) + ["-config", cfg, os.path.join(SPEC, module + ".tla")]
     t0 = time.time()
     e = dict(os.environ)
-    e["JAVA_TOOL_OPTIONS"] = "-Xss512m"
+    tmpd = outpath + ".tmp"; os.makedirs(tmpd, exist_ok=True)      # TLC unpacks its standard modules there on every run
+    e["JAVA_TOOL_OPTIONS"] = f"-Xss512m -Djava.io.tmpdir={tmpd}"
     if env:
         e.update(env)
     with open(outpath, "w") as f:
@@ -196,6 +203,7 @@ def tlc_mc(module, cfg, outpath, workers=None, timeout=3600, env=None, coverage=
         except Exception as ex:
             raise ToolError(f"tlc failed to start: {ex}")
     shutil.rmtree(meta, ignore_errors=True)
+    shutil.rmtree(tmpd, ignore_errors=True)
     res = {"rc": p.returncode, "wall_s": round(time.time() - t0, 1), "out": outpath,
            "generated": 0, "distinct": 0, "depth": 0, "ok": False, "violated": None}
     tail = ""
@@ -248,7 +256,8 @@ def tlc_trace(module, trace, outpath, timeout=1800, heap="8g", focus=(), cont=Fa
     shutil.rmtree(meta, ignore_errors=True)
     e = dict(os.environ)
     e["TRACE"] = os.path.abspath(trace)
-    e["JAVA_TOOL_OPTIONS"] = f"-Xss1g -Xmx{heap} -Dtlc2.tool.queue.IStateQueue=StateDeque"
+    tmpd = outpath + ".tmp"; os.makedirs(tmpd, exist_ok=True)
+    e["JAVA_TOOL_OPTIONS"] = f"-Xss1g -Xmx{heap} -Dtlc2.tool.queue.IStateQueue=StateDeque -Djava.io.tmpdir={tmpd}"
     for k in list(e):
         if k.startswith("F_C") or k == "F_ALL":
             del e[k]
@@ -263,6 +272,7 @@ def tlc_trace(module, trace, outpath, timeout=1800, heap="8g", focus=(), cont=Fa
     with open(outpath, "w") as f:
         p = subprocess.run(cmd, stdout=f, stderr=subprocess.STDOUT, env=e, cwd=os.path.dirname(outpath))
     shutil.rmtree(meta, ignore_errors=True)
+    shutil.rmtree(tmpd, ignore_errors=True)
     out = open(outpath, errors="replace").read()
     res = {"accepted": False, "at": None, "ev": None, "tag": None, "events": None,
            "wall_s": round(time.time() - t0, 1), "out": outpath,
